@@ -5,6 +5,7 @@ import (
 	"errors"
 	"fmt"
 	"maps"
+	"slices"
 	"sort"
 	"sync"
 
@@ -245,7 +246,7 @@ func (pm *pathManager) doReloadConf(newPaths map[string]*conf.Path) {
 
 	// process existing paths
 	for pathName, pa := range pm.paths {
-		newPathConf, _, err := conf.FindPathConf(newPaths, pathName)
+		newPathConf, newMatches, err := conf.FindPathConf(newPaths, pathName)
 		// path does not have a config anymore: delete it
 		if err != nil {
 			pm.doClosePath(pa)
@@ -256,7 +257,9 @@ func (pm *pathManager) doReloadConf(newPaths map[string]*conf.Path) {
 		if newPathConf.Name != pa.confName {
 			// path config can be hot reloaded
 			oldPathConf := pm.pathConfs[pa.confName]
-			if pathConfCanBeUpdated(oldPathConf, newPathConf) {
+			// capture groups are bound to the path at creation and cannot be hot reloaded
+			sameGroups := (len(pa.matches) <= 1 && len(newMatches) <= 1) || slices.Equal(pa.matches, newMatches)
+			if pathConfCanBeUpdated(oldPathConf, newPathConf) && sameGroups {
 				pa.confName = newPathConf.Name
 				go pa.reloadConf(newPathConf)
 				continue
